@@ -5,6 +5,7 @@
 package main
 
 import (
+	"bytes"
 	"bufio"
 	"encoding/json"
 	"flag"
@@ -91,7 +92,7 @@ func seed() int64 {
 }
 
 // ---------------------------------------------------------------- generation
-var stdChunks = []string{"whole", "1", "2", "3", "7", "half", "dataerr"}
+var stdChunks = []string{"whole", "1", "2", "3", "7", "half", "dataerr", "dataerr:1", "dataerr:3"}
 
 func genCases(args []string) {
 	fs := flag.NewFlagSet("gen", flag.ExitOnError)
@@ -197,14 +198,17 @@ func genCases(args []string) {
 		}
 		readLines(f, func(l []byte) {
 			k++
-			if k%step != 0 {
-				return
-			}
 			var lit struct {
 				B []int `json:"b"`
 			}
 			json.Unmarshal(l, &lit)
 			b := plib.Bytes(lit.B)
+			// strings with an escaped surrogate half are always taken (the pending-half registers of the five automata are
+			// per front-end code), everything else is sampled
+			sur := bytes.Contains(b, []byte("\\uD")) || bytes.Contains(b, []byte("\\ud"))
+			if k%step != 0 && !(sur && (*thorough || len(b) <= 22)) {
+				return
+			}
 			docs := [][]byte{b, []byte("[" + string(b) + "," + string(b) + "]"), []byte("{\"a\":" + string(b) + "}")}
 			d := docs[k%len(docs)]
 			emit(d, "json", "lit", 0, chunksFor(d))
